@@ -8,6 +8,7 @@ import (
 	"encoding/json"
 	"fmt"
 	"os"
+	"runtime"
 	"sort"
 	"strings"
 	"sync"
@@ -188,6 +189,17 @@ type callObs struct {
 // process is of no further use and a fresh one continues.
 var daemonsLeft bool
 
+// freshBubble runs before every bubble. Channels and timers made inside a
+// bubble may not be touched from another one (the Go runtime aborts the process:
+// "... synctest channel from outside bubble"), so nothing that holds one may
+// survive from bubble to bubble. Per-call records that an implementation
+// recycles through a sync.Pool would; two collections empty every pool
+// (a pool's victim cache lives for one more cycle).
+func freshBubble() {
+	runtime.GC()
+	runtime.GC()
+}
+
 func bubblePanic(msg string) (stuck string) {
 	if strings.Contains(msg, "main bubble goroutine has exited") {
 		daemonsLeft = true
@@ -237,6 +249,7 @@ func (c16) exec(pj json.RawMessage, tape *simrt.Tape, keepLog bool) harness.RunO
 				stuck = bubblePanic(fmt.Sprint(r))
 			}
 		}()
+		freshBubble()
 		synctest.Test(theT, func(t *testing.T) {
 			var mu sync.Mutex
 			cond := sync.NewCond(&mu)
@@ -635,6 +648,7 @@ func perturbOnce(p *WTPlan, script []uint8) (*harness.Violation, []string) {
 			}
 			done <- r
 		}()
+		freshBubble()
 		synctest.Test(theT, func(t *testing.T) {
 			cond := sync.NewCond(&mu)
 			t0 := time.Now()
